@@ -23,6 +23,24 @@ func (l *Ledger) updateBranchInfo(addedBlockid, deletedBlockid []byte, addedBloc
 	return nil
 }
 
+// keepSurvivingBranch records, when the branch ending in branchTip is cut down to
+// the height of target, the highest block of that branch that survives the cut
+// as a branch tip, unless that block is target itself.
+func (l *Ledger) keepSurvivingBranch(branchTip []byte, target *pb.InternalBlock, batch kvdb.Batch) error {
+	survivor, err := l.fetchBlock(branchTip)
+	for err == nil && survivor.Height > target.Height {
+		survivor, err = l.fetchBlock(survivor.PreHash)
+	}
+	if err != nil {
+		return nil //ignore orphan block, as removeBlocks does
+	}
+	if bytes.Equal(survivor.Blockid, target.Blockid) {
+		return nil
+	}
+	heightStr := strconv.FormatInt(survivor.Height, 10)
+	return batch.Put(append([]byte(pb.BranchInfoPrefix), survivor.Blockid...), []byte(heightStr))
+}
+
 func (l *Ledger) GetBranchInfo(targetBlockid []byte, targetBlockHeight int64) ([]string, error) {
 	result := []string{}
 	it := l.baseDB.NewIteratorWithPrefix([]byte(pb.BranchInfoPrefix))
